@@ -63,7 +63,7 @@ def sym_task(arg):
         if not any(('%s:0.' % form) in v or ('%s:1.' % form) in v for v in names):
             continue
         res['lines'] += 1
-        if len(paths) > 300:
+        if len(paths) > 400:
             res['obl'].append(('ty%d/renumber/%s/%s (%d paths: too large)' % (year, form, n, len(paths)), 'unknown', 0.0))
             continue
         mapping = {v: tm.var(swap_name(v, form), srt) for v, srt in names.items() if swap_name(v, form) != v}
